@@ -385,6 +385,25 @@ class Normaliser:
                                 for t in (st.targets if isinstance(st, ast.Assign) else [st.target]):
                                     if isinstance(t, ast.Name):
                                         outside.add(t.id)     # class-level attribute / descriptor
+        # ... and those of them that are always bound to a freshly built object (a display, a
+        # constructor call): never None
+        nonnull: Dict[str, bool] = {}
+        for tree in self.trees.values():
+            for fn in [n for n in ast.walk(tree) if isinstance(n, ast.FunctionDef)
+                       and n.name in ("__init__", "__set_name__", "__new__")]:
+                for n in _walk_scope(fn):
+                    if isinstance(n, (ast.Assign, ast.AnnAssign)) and getattr(n, "value", None) is not None:
+                        for t in (n.targets if isinstance(n, ast.Assign) else [n.target]):
+                            if isinstance(t, ast.Attribute) and t.attr in inside and t.attr not in outside:
+                                v = n.value
+                                fresh = isinstance(v, (ast.Dict, ast.List, ast.Set, ast.Tuple, ast.ListComp, ast.DictComp,
+                                                       ast.SetComp, ast.JoinedStr)) or (
+                                    isinstance(v, ast.Call) and isinstance(v.func, (ast.Name, ast.Attribute, ast.Subscript))
+                                    and (attr_path_(v.func.value if isinstance(v.func, ast.Subscript) else v.func) or ("",))[-1][:1].isupper()
+                                ) or (isinstance(v, ast.Call) and isinstance(v.func, ast.Name) and v.func.id in (
+                                    "dict", "list", "set", "bytearray", "defaultdict", "tuple", "frozenset"))
+                                nonnull[t.attr] = nonnull.get(t.attr, True) and fresh
+        self.never_none = {a for a, ok in nonnull.items() if ok}
         # attributes of immutable library values the package reads (range / slice bounds, the
         # fields of an intervaltree.Interval named tuple)
         return (inside - outside) | {"start", "stop", "step", "begin", "end", "data"}
@@ -399,11 +418,21 @@ class Normaliser:
         self.class_by_simple: Dict[str, str] = {}
         for mod, tree in self.trees.items():
             imp: Dict[str, Tuple[str, str]] = {}
+            absimp: Dict[str, Tuple[str, str]] = {}
             for st in ast.walk(tree):
                 if isinstance(st, ast.ImportFrom) and st.level == 1 and st.module:
                     for a in st.names:
                         imp[a.asname or a.name] = (st.module, a.name)
+                elif isinstance(st, ast.ImportFrom) and st.level == 0 and st.module:
+                    for a in st.names:
+                        absimp[a.asname or a.name] = (st.module, a.name)
+                elif isinstance(st, ast.Import):
+                    for a in st.names:
+                        absimp[a.asname or a.name.split(".")[0]] = (a.name if a.asname else a.name.split(".")[0], "")
             self.imports[mod] = imp
+            if not hasattr(self, "abs_imports"):
+                self.abs_imports: Dict[str, Dict[str, Tuple[str, str]]] = {}
+            self.abs_imports[mod] = absimp
 
             def visit(stmts: List[ast.stmt], cls: Optional[str]) -> None:
                 for st in stmts:
@@ -430,7 +459,7 @@ class Normaliser:
                         visit(st.orelse, cls)
             visit(tree.body, None)
 
-    def is_candidate(self, h: Helper) -> bool:
+    def is_candidate(self, h: Helper, unique: bool = True) -> bool:
         n = h.node.name
         if self.known is None or h.key in self.known:
             return False
@@ -444,9 +473,16 @@ class Normaliser:
         if h.other_deco:
             return False
         a = h.node.args
-        if a.kwarg or a.posonlyargs:
+        if a.posonlyargs:
             return False
-        if len(self.defs.get(n, [])) != 1:
+        if a.kwarg:
+            # only a pure pass-through:  def f(p, **kw): ... g(..., **kw) ...  (one use)
+            uses = [x for x in ast.walk(h.node) if isinstance(x, ast.Name) and x.id == a.kwarg.arg]
+            fwd = [k for c_ in ast.walk(h.node) if isinstance(c_, ast.Call) for k in c_.keywords
+                   if k.arg is None and isinstance(k.value, ast.Name) and k.value.id == a.kwarg.arg]
+            if len(uses) != 1 or len(fwd) != 1:
+                return False
+        if unique and len(self.defs.get(n, [])) != 1:
             return False                      # overridden or ambiguous
         for x in _walk_scope(h.node):
             if isinstance(x, (ast.Global, ast.Nonlocal)):
@@ -509,6 +545,29 @@ class Normaliser:
             return None
         if isinstance(f, ast.Attribute):
             hs = self.defs.get(f.attr, [])
+            if len(hs) > 1 and caller_cls is not None and isinstance(f.value, ast.Name):
+                # several classes define the name: ``self.m(...)`` inside a method of C is C's own
+                # (or inherited) m when no subclass of C redefines it
+                cur_fn = getattr(self, "_cur_fn", None)
+                me_ = cur_fn.args.args[0].arg if cur_fn is not None and cur_fn.args.args and getattr(
+                    cur_fn, "_is_method", False) else None
+                if me_ is not None and f.value.id == me_:
+                    found = None
+                    seen_: Set[str] = set()
+                    todo_ = [caller_cls]
+                    while todo_ and found is None:
+                        q_ = todo_.pop(0)
+                        if q_ in seen_:
+                            continue
+                        seen_.add(q_)
+                        found = self.class_methods.get(q_, {}).get(f.attr)
+                        todo_ = [self.class_by_simple.get(b_) for b_ in self.class_bases.get(q_, [])
+                                 if self.class_by_simple.get(b_)] + todo_
+                    below = [q_ for q_ in self.class_bases if q_ != caller_cls and self._descends(q_, caller_cls)]
+                    if found is not None and not any(f.attr in self.class_methods.get(q_, {}) for q_ in below) \
+                            and self.is_candidate(found, unique=False) and not found.static and not found.classmethod:
+                        return found, f.value
+                return None
             if len(hs) != 1 or hs[0].cls is None or not self.is_candidate(hs[0]):
                 return None
             h = hs[0]
@@ -531,6 +590,22 @@ class Normaliser:
                 return h, None          # unbound call: self passed explicitly
             return h, recv
         return None
+
+    def _descends(self, q: str, anc: str) -> bool:
+        seen: Set[str] = set()
+        todo = [q]
+        while todo:
+            c = todo.pop()
+            if c in seen:
+                continue
+            seen.add(c)
+            for b in self.class_bases.get(c, []):
+                qb = self.class_by_simple.get(b)
+                if qb == anc:
+                    return True
+                if qb:
+                    todo.append(qb)
+        return False
 
     def _bind(self, h: Helper, call: ast.Call, recv: Optional[ast.expr]) -> Optional[Dict[str, ast.expr]]:
         va = h.node.args.vararg
@@ -571,9 +646,15 @@ class Normaliser:
             return None
         for p, a in zip(params, pos):
             out[p] = a
+        kwname = h.node.args.kwarg.arg if h.node.args.kwarg else None
         for k in call.keywords:
-            if k.arg in out or k.arg not in params + kwonly:
+            if k.arg in out:
                 return None
+            if k.arg not in params + kwonly:
+                if kwname is None:
+                    return None
+                out["**%s:%s" % (kwname, k.arg)] = k.value     # forwarded keyword
+                continue
             out[k.arg] = k.value
         for p in params + kwonly:
             if p not in out:
@@ -618,6 +699,29 @@ class Normaliser:
             taken.add(nm)
             return nm
 
+        forwarded: List[Tuple[str, str, ast.expr]] = []
+        for p in [p_ for p_ in binding if p_.startswith("**")]:
+            kwn, key = p[2:].split(":", 1)
+            a = binding.pop(p)
+            if self._atomic(a) or _purity(a, set()) < 2:
+                forwarded.append((kwn, key, a))
+            else:
+                nm = fresh("%s_%s" % (kwn, key))
+                pre.append(ast.Assign(targets=[ast.Name(id=nm, ctx=ast.Store())], value=copy.deepcopy(a),
+                                      lineno=0, col_offset=0))
+                forwarded.append((kwn, key, ast.Name(id=nm, ctx=ast.Load())))
+        if h.node.args.kwarg is not None:
+            kwn0 = h.node.args.kwarg.arg
+            for c_ in ast.walk(holder):
+                if isinstance(c_, ast.Call):
+                    new_kws: List[ast.keyword] = []
+                    for k in c_.keywords:
+                        if k.arg is None and isinstance(k.value, ast.Name) and k.value.id == kwn0:
+                            new_kws.extend(ast.keyword(arg=key, value=copy.deepcopy(v_)) for kn_, key, v_ in forwarded
+                                           if kn_ == kwn0)
+                        else:
+                            new_kws.append(k)
+                    c_.keywords = new_kws
         for p, a in binding.items():
             if p in assigned or not (self._atomic(a) or isinstance(a, ast.Lambda)
                                      or uses.get(p, 0) <= 1 and _purity(a, set()) < 2):
@@ -641,6 +745,20 @@ class Normaliser:
                     n._synth = True  # type: ignore[attr-defined]
         for s in pre + body:
             _set_loc(s, at)
+        # a parameter bound to a literal table makes loops over it constant: bring the instance
+        # into normal form (unrolled, folded) before its exits are nested at the call site
+        if any(isinstance(a_, (ast.Tuple, ast.List)) for a_ in binding.values()) and body:
+            tmp = ast.FunctionDef(name="_instance_", args=ast.arguments(posonlyargs=[], args=[], kwonlyargs=[],
+                                                                          kw_defaults=[], defaults=[]),
+                                  body=body, decorator_list=[], returns=None, type_comment=None, type_params=[])
+            _set_loc(tmp, at)
+            for _ in range(4):
+                a1 = self.shapes(tmp)
+                a2 = self.fold(tmp)
+                if not (a1 or a2):
+                    break
+            body = tmp.body
+            taken |= _all_names(tmp)
         return pre, body
 
     @staticmethod
@@ -708,6 +826,10 @@ class Normaliser:
                 if isinstance(st, ast.Try):
                     for hd in st.handlers:
                         hd.body = splice_block(hd.body)
+                pre_recv = self._name_receiver(fn, st)
+                if pre_recv is not None:
+                    out.append(pre_recv)
+                    changed = True
                 rep = self._splice_stmt(mod, fn, cls, st)
                 if rep is None:
                     rep = self._hoist(mod, fn, cls, st)
@@ -739,13 +861,48 @@ class Normaliser:
             return "assign", st.value
         return None
 
+    def _name_receiver(self, fn: ast.FunctionDef, st: ast.stmt) -> Optional[ast.stmt]:
+        """``return <call>.helper(args)`` / ``x = <call>.helper(args)``: the receiver of a helper
+        method is evaluated first in any case; give it a name so that the helper can be spliced"""
+        co = self._call_of(st)
+        if co is None:
+            return None
+        _ctx, call = co
+        f = call.func
+        if not (isinstance(f, ast.Attribute) and isinstance(f.value, ast.Call)):
+            return None
+        if isinstance(f.value.func, ast.Name) and f.value.func.id == "super":
+            return None
+        hs = self.defs.get(f.attr, [])
+        if len(hs) != 1 or hs[0].cls is None or not self.is_candidate(hs[0]) or hs[0].static or hs[0].classmethod:
+            return None
+        taken = getattr(fn, "_taken", None)
+        if taken is None:
+            taken = _all_names(fn)
+            fn._taken = taken  # type: ignore[attr-defined]
+        i = 1
+        while "receiver%d" % i in taken:
+            i += 1
+        nm = "receiver%d" % i
+        taken.add(nm)
+        tmp = ast.Assign(targets=[ast.Name(id=nm, ctx=ast.Store())], value=f.value)
+        ast.copy_location(tmp, st)
+        _set_loc(tmp.targets[0], st)
+        f.value = ast.copy_location(ast.Name(id=nm, ctx=ast.Load()), f.value)
+        return tmp
+
     def _hoist(self, mod: str, fn: ast.FunctionDef, cls: Optional[str], st: ast.stmt) -> Optional[List[ast.stmt]]:
         """``return f(helper(x))`` -> ``t = helper(x)`` / ``return f(t)`` when the helper call is
         the first thing the statement evaluates that can have an effect, and it is evaluated
         exactly once; the temporary is spliced by the caller (or put back by N2)"""
-        if not isinstance(st, (ast.Return, ast.Assign, ast.Expr, ast.AugAssign, ast.AnnAssign)):
+        if isinstance(st, ast.If):
+            root = st.test              # evaluated once, before anything in the branches
+        elif isinstance(st, ast.For):
+            root = st.iter
+        elif not isinstance(st, (ast.Return, ast.Assign, ast.Expr, ast.AugAssign, ast.AnnAssign)):
             return None
-        root = st.value if not isinstance(st, ast.Expr) else st.value
+        else:
+            root = st.value if not isinstance(st, ast.Expr) else st.value
         if root is None:
             return None
         _renumber(st)
@@ -787,7 +944,14 @@ class Normaliser:
                     if node is c:
                         return ast.copy_location(ast.Name(id=nm, ctx=ast.Load()), node)
                     return self.generic_visit(node)
-            new_st = R().visit(st)
+            if isinstance(st, ast.If):
+                st.test = R().visit(st.test)
+                new_st = st
+            elif isinstance(st, ast.For):
+                st.iter = R().visit(st.iter)
+                new_st = st
+            else:
+                new_st = R().visit(st)
             spliced = self._splice_stmt(mod, fn, cls, tmp)
             if spliced is None:
                 # put it back: nothing gained
@@ -796,13 +960,100 @@ class Normaliser:
                         if node.id == nm and isinstance(node.ctx, ast.Load):
                             return c
                         return node
-                U().visit(new_st)
+                if isinstance(new_st, ast.If):
+                    new_st.test = U().visit(new_st.test)
+                elif isinstance(new_st, ast.For):
+                    new_st.iter = U().visit(new_st.iter)
+                else:
+                    U().visit(new_st)
                 taken.discard(nm)
                 continue
             return spliced + [new_st]
         return None
 
+    def _splice_for(self, mod: str, fn: ast.FunctionDef, cls: Optional[str], st: ast.For) -> Optional[List[ast.stmt]]:
+        """``for T in gen_helper(args): BODY``  ->  the helper's body with ``T = v; BODY`` at its
+        (single) ``yield v``: the consumer runs between two steps of the generator either way"""
+        if st.orelse or not isinstance(st.iter, ast.Call):
+            return None
+        r = self._resolve(mod, st.iter, cls)
+        if r is None:
+            return None
+        h, recv = r
+        if h.node is fn or not h.generator or self._prefers_closure(mod, fn, h):
+            return None
+        # BODY must not jump out of / restart the consumer loop (it would have to leave the helper's loops)
+        def jumps(stmts: List[ast.stmt]) -> bool:
+            for s_ in stmts:
+                if isinstance(s_, (ast.Break, ast.Continue)):
+                    return True
+                if isinstance(s_, (ast.For, ast.While) + ScopeT):
+                    continue
+                for fld in ("body", "orelse", "finalbody"):
+                    sub = getattr(s_, fld, None)
+                    if isinstance(sub, list) and sub and isinstance(sub[0], ast.stmt) and jumps(sub):
+                        return True
+                if isinstance(s_, ast.Try) and any(jumps(hd.body) for hd in s_.handlers):
+                    return True
+            return False
+        if jumps(st.body):
+            return None
+        binding = self._bind(h, st.iter, recv)
+        if binding is None:
+            return None
+        ys = [n for n in _walk_scope(h.node) if isinstance(n, (ast.Yield, ast.YieldFrom))]
+        if not ys or len(ys) > 3 or any(not isinstance(y, ast.Yield) or y.value is None for y in ys):
+            return None
+        if len(ys) > 1 and sum(len(list(ast.walk(b_))) for b_ in st.body) > 60:
+            return None             # the consumer's body would be duplicated at every yield
+        if any(isinstance(n, (ast.Try, ast.With)) for n in _walk_scope(h.node)):
+            return None
+        inst = self._instantiate(h, binding, fn, st)
+        if inst is None:
+            return None
+        pre, body = inst
+        if any(r_.value is not None for r_ in self._returns(body)):
+            return None
+        done = 0
+
+        def place(stmts: List[ast.stmt]) -> None:
+            nonlocal done
+            i = 0
+            while i < len(stmts):
+                s_ = stmts[i]
+                if isinstance(s_, ast.Expr) and isinstance(s_.value, ast.Yield):
+                    bind = ast.Assign(targets=[copy.deepcopy(st.target)], value=s_.value.value)
+                    ast.copy_location(bind, st)
+                    new_ = [bind] + (copy.deepcopy(st.body) if done else list(st.body))
+                    stmts[i:i + 1] = new_
+                    done += 1
+                    i += len(new_)
+                    continue
+                if not isinstance(s_, ScopeT):
+                    for fld in ("body", "orelse", "finalbody"):
+                        sub = getattr(s_, fld, None)
+                        if isinstance(sub, list) and sub and isinstance(sub[0], ast.stmt):
+                            place(sub)
+                i += 1
+        place(body)
+        if done != len(ys):
+            return None
+        # a bare ``return`` of the generator ends the iteration: the consumer loop is over, the
+        # statements after it run — only a helper without such returns is spliced
+        if self._returns(body) and not _is_generator(fn):
+            return None
+        if [r_ for r_ in self._returns(body) if r_.value is None and r_ not in self._returns(st.body)]:
+            return None
+        self.report.inlined.append("%s -> %s (for)" % (h.key, fn.name))
+        self._inlined_keys.add(h.key)
+        out = pre + body
+        for s_ in out:
+            ast.fix_missing_locations(s_)
+        return out
+
     def _splice_stmt(self, mod: str, fn: ast.FunctionDef, cls: Optional[str], st: ast.stmt) -> Optional[List[ast.stmt]]:
+        if isinstance(st, ast.For):
+            return self._splice_for(mod, fn, cls, st)
         co = self._call_of(st)
         if co is None:
             return None
@@ -1059,7 +1310,8 @@ class Normaliser:
                 d = copy.deepcopy(h.node)
                 d.name = nm
                 d.decorator_list = []
-                d.returns = None
+                if h.mod != mod:
+                    d.returns = None        # names of another module's annotations mean nothing here
                 if not h.static and h.cls is not None and d.args.args:
                     d.args.args = d.args.args[1:]       # self / cls come from the enclosing scope
                 # a parameter that every call passes the caller's variable of the same name, never
@@ -1161,6 +1413,9 @@ class Normaliser:
                             for inner in [st] + [n for n in ast.walk(st) if isinstance(n, ast.FunctionDef) and n is not st]:
                                 if self._inline_in_function(mod, inner, cls):
                                     any_change = True
+                                    # temporaries introduced by the splice are folded at once, so that
+                                    # the next round sees calls where they are used
+                                    self._local_passes_fn(inner)
                         elif isinstance(st, ast.If):
                             visit(st.body, cls)
                             visit(st.orelse, cls)
@@ -1208,6 +1463,12 @@ class Normaliser:
             if isinstance(e, ast.UnaryOp) and isinstance(e.op, ast.Not):
                 v = const_of(e.operand)
                 return None if v is None else (not v)
+            if isinstance(e, ast.Compare) and len(e.ops) == 1 and isinstance(e.ops[0], (ast.Is, ast.IsNot)) \
+                    and isinstance(e.comparators[0], ast.Constant) and e.comparators[0].value is None \
+                    and isinstance(e.left, ast.Attribute) and e.left.attr in getattr(self, "never_none", ()) \
+                    and attr_path_(e.left):
+                # an attribute that constructors bind to a freshly built object and nothing rebinds
+                return isinstance(e.ops[0], ast.IsNot)
             if isinstance(e, ast.Compare) and len(e.ops) == 1 and isinstance(e.ops[0], (ast.Is, ast.IsNot)) \
                     and isinstance(e.left, ast.Constant) and isinstance(e.comparators[0], ast.Constant) \
                     and (getattr(e.left, "_synth", False) or getattr(e.comparators[0], "_synth", False)) \
@@ -1539,6 +1800,11 @@ class Normaliser:
                     continue
                 # for T in (<literal>, ...): S   -> S once per element; with the body a single
                 # ``if c: ...; break`` (and an optional else) -> an if/elif chain
+                if isinstance(st, ast.For) and isinstance(st.iter, (ast.Tuple, ast.List)) and not st.iter.elts:
+                    out.extend(block(list(st.orelse)))          # a loop over nothing
+                    changed = True
+                    rep.shapes += 1
+                    continue
                 if isinstance(st, ast.For) and isinstance(st.iter, (ast.Tuple, ast.List)) and 0 < len(st.iter.elts) <= 6:
                     tnames = [n_.id for n_ in ast.walk(st.target) if isinstance(n_, ast.Name)]
                     flat = isinstance(st.target, ast.Name)
@@ -1561,6 +1827,31 @@ class Normaliser:
                                     if isinstance(n_, ast.Name) and n_.id in tnames and not isinstance(n_.ctx, ast.Load)]
                     jumps = [n_ for b_ in st.body for n_ in ast.walk(b_) if isinstance(n_, (ast.Break, ast.Continue))]
                     nested_loops = any(isinstance(n_, (ast.For, ast.While)) for b_ in st.body for n_ in ast.walk(b_))
+                    break_form = len(st.body) == 1 and isinstance(st.body[0], ast.If) and not st.body[0].orelse and \
+                        bool(st.body[0].body) and isinstance(st.body[0].body[-1], ast.Break) and len(jumps) == 1
+                    if shape_ok and tnames and all(lit(e_) for e_ in st.iter.elts) and outside and not inner_stores \
+                            and len(set(tnames)) == len(tnames) and all(stores.get(t_) == 1 for t_ in tnames) \
+                            and not nested_loops and break_form and st.orelse and self._always_exits(st.orelse) \
+                            and all(_after(o_, st) for o_ in outside):
+                        # the targets are used after the loop, which is only left by ``break``: each
+                        # branch of the chain binds them to its element (threaded into what follows)
+                        tail2: List[ast.stmt] = list(st.orelse)
+                        for e_ in reversed(st.iter.elts):
+                            one = copy.deepcopy(st.body[0])
+                            vals = [e_] if flat else list(e_.elts)  # type: ignore[attr-defined]
+                            one.body = one.body[:-1] + [ast.copy_location(ast.Assign(
+                                targets=[ast.copy_location(ast.Name(id=t_, ctx=ast.Store()), st)], value=copy.deepcopy(v_)), st)
+                                for t_, v_ in zip(tnames, vals)]
+                            mp2 = {t_: v_ for t_, v_ in zip(tnames, vals)}
+                            one.test = _Subst(mp2).visit(one.test)
+                            one.body = [b_ if isinstance(b_, ast.Assign) and b_ in one.body[-len(tnames):] else
+                                        _Subst(mp2).visit(b_) for b_ in one.body]
+                            one.orelse = tail2
+                            tail2 = [one]
+                        out.extend(block(tail2))
+                        changed = True
+                        rep.shapes += 1
+                        continue
                     if shape_ok and tnames and all(lit(e_) for e_ in st.iter.elts) and not outside and not inner_stores \
                             and len(set(tnames)) == len(tnames) and all(stores.get(t_) == 1 for t_ in tnames) and not nested_loops:
                         def inst(body_: List[ast.stmt], e_: ast.expr) -> List[ast.stmt]:
@@ -1685,6 +1976,30 @@ class Normaliser:
                             changed = True
                             rep.shapes += 1
                             continue
+                # a, b = (x, y) if c else (u, v)   ->   if c: a, b = x, y  else: a, b = u, v
+                if isinstance(st, ast.Assign) and len(st.targets) == 1 and isinstance(st.targets[0], ast.Tuple) \
+                        and isinstance(st.value, ast.IfExp) and isinstance(st.value.body, ast.Tuple) \
+                        and isinstance(st.value.orelse, ast.Tuple) \
+                        and len(st.value.body.elts) == len(st.value.orelse.elts) == len(st.targets[0].elts):
+                    mk2 = lambda v_: ast.copy_location(ast.Assign(  # noqa: E731
+                        targets=[copy.deepcopy(st.targets[0])], value=v_), st)
+                    new_if = ast.copy_location(ast.If(test=st.value.test, body=[mk2(st.value.body)],
+                                                      orelse=[mk2(st.value.orelse)]), st)
+                    out.extend(block([new_if]))
+                    changed = True
+                    rep.shapes += 1
+                    continue
+                # x = <quiet expression>  with x never read: nothing
+                if isinstance(st, ast.Assign) and len(st.targets) == 1 and isinstance(st.targets[0], ast.Name) \
+                        and _quiet(st.value) and _purity(st.value, set()) < 2 and len(stmts) > 1 \
+                        and not any(isinstance(n_, ast.Name) and n_.id == st.targets[0].id and isinstance(n_.ctx, ast.Load)
+                                    for n_ in ast.walk(fn)) \
+                        and not any(isinstance(n_, (ast.Global, ast.Nonlocal)) for n_ in ast.walk(fn)) \
+                        and not any(isinstance(n_, ast.Call) and isinstance(n_.func, ast.Name) and n_.func.id in ("locals", "vars", "eval", "exec")
+                                    for n_ in ast.walk(fn)):
+                    changed = True
+                    rep.shapes += 1
+                    continue
                 # a, b = x, y
                 if isinstance(st, ast.Assign) and len(st.targets) == 1 and isinstance(st.targets[0], ast.Tuple) \
                         and isinstance(st.value, ast.Tuple) and len(st.value.elts) == len(st.targets[0].elts) \
@@ -1716,6 +2031,57 @@ class Normaliser:
             if len(uses) != len(called) or not uses:
                 del lambdas[nm]
 
+        # a local bound once to functools.partial(F, <stable arguments>) and only ever called:
+        # p(x) is F(<those arguments>, x)
+        partials: Dict[str, ast.Call] = {}
+        for n in _walk_scope(fn):
+            if isinstance(n, ast.Assign) and len(n.targets) == 1 and isinstance(n.targets[0], ast.Name) \
+                    and isinstance(n.value, ast.Call) and attr_path_(n.value.func) in (("functools", "partial"), ("partial",)) \
+                    and stores.get(n.targets[0].id) == 1 and n.value.args and \
+                    not any(isinstance(a_, ast.Starred) for a_ in n.value.args) and \
+                    all(k_.arg is not None for k_ in n.value.keywords) and \
+                    all(Normaliser._atomic(a_) and (isinstance(a_, ast.Constant) or stores.get(attr_path_(a_)[0], 0) == 0)
+                        for a_ in list(n.value.args) + [k_.value for k_ in n.value.keywords]):
+                nm_ = n.targets[0].id
+                uses_ = [x for x in ast.walk(fn) if isinstance(x, ast.Name) and x.id == nm_ and isinstance(x.ctx, ast.Load)]
+                called_ = [x for x in ast.walk(fn) if isinstance(x, ast.Call) and isinstance(x.func, ast.Name) and x.func.id == nm_]
+                if uses_ and len(uses_) == len(called_):
+                    partials[nm_] = n.value
+        # a nested function sees the partials of the functions around it (names it does not rebind)
+        inherited = getattr(fn, "_inherited_partials", {})
+        own_stores = {n.id for n in _walk_scope(fn) if isinstance(n, ast.Name) and not isinstance(n.ctx, ast.Load)} | {
+            a_.arg for a_ in ast.walk(fn.args) if isinstance(a_, ast.arg)}
+        for nm_, pc_ in inherited.items():
+            if nm_ not in own_stores and nm_ not in partials and not any(
+                    isinstance(x, ast.Name) and x.id in own_stores for a_ in list(pc_.args) + [k_.value for k_ in pc_.keywords]
+                    for x in ast.walk(a_)):
+                partials[nm_] = pc_
+        for inner in [n for n in ast.walk(fn) if isinstance(n, ast.FunctionDef) and n is not fn]:
+            inner._inherited_partials = dict(partials)  # type: ignore[attr-defined]
+
+        # a local bound once to an instance of a private "function object" class of this module
+        # (``__init__`` only stores its arguments, ``__call__`` is one expression over them) and
+        # only ever called: d(x) is that expression over the constructor's arguments
+        fobjs: Dict[str, Tuple[ast.Lambda, Dict[str, ast.expr]]] = {}
+        for n in _walk_scope(fn):
+            if isinstance(n, ast.Assign) and len(n.targets) == 1 and isinstance(n.targets[0], ast.Name) \
+                    and isinstance(n.value, ast.Call) and isinstance(n.value.func, ast.Name) \
+                    and stores.get(n.targets[0].id) == 1 and not n.value.keywords \
+                    and not any(isinstance(a_, ast.Starred) for a_ in n.value.args):
+                rec = self._function_object_class(getattr(fn, "_mod", ""), n.value.func.id)
+                if rec is None:
+                    continue
+                fields, lam_ = rec
+                if len(fields) != len(n.value.args) or not all(
+                        Normaliser._atomic(a_) and (isinstance(a_, ast.Constant) or stores.get(attr_path_(a_)[0], 0) == 0)
+                        for a_ in n.value.args):
+                    continue
+                nm_ = n.targets[0].id
+                uses_ = [x for x in ast.walk(fn) if isinstance(x, ast.Name) and x.id == nm_ and isinstance(x.ctx, ast.Load)]
+                called_ = [x for x in ast.walk(fn) if isinstance(x, ast.Call) and isinstance(x.func, ast.Name) and x.func.id == nm_]
+                if uses_ and len(uses_) == len(called_):
+                    fobjs[nm_] = (lam_, dict(zip(fields, n.value.args)))
+
         def beta(lam: ast.Lambda, call: ast.Call) -> Optional[ast.expr]:
             a = lam.args
             if a.vararg or a.kwarg or a.kwonlyargs or a.defaults or a.posonlyargs or call.keywords \
@@ -1734,14 +2100,47 @@ class Normaliser:
             # lambda was written in this function (same scope)
             return _Subst(mp).visit(copy.deepcopy(body))
 
+        norm_absimp = getattr(self, "abs_imports", {}).get(getattr(fn, "_mod", ""), {})
+
         class X(ast.NodeTransformer):
             def visit_FunctionDef(self, node: ast.FunctionDef) -> ast.AST:
                 return self.generic_visit(node) if node is fn else node
+
+            def visit_Compare(self, node: ast.Compare) -> ast.AST:
+                nonlocal changed
+                self.generic_visit(node)
+                # x in frozenset((a, b)) / tuple / list of constants  ->  x in {a, b}
+                if len(node.ops) == 1 and isinstance(node.ops[0], (ast.In, ast.NotIn)):
+                    c = node.comparators[0]
+                    if isinstance(c, ast.Call) and isinstance(c.func, ast.Name) and c.func.id in ("frozenset", "set") \
+                            and len(c.args) == 1 and not c.keywords and isinstance(c.args[0], (ast.Tuple, ast.List, ast.Set)) \
+                            and c.args[0].elts and all(isinstance(x, ast.Constant) for x in c.args[0].elts):
+                        node.comparators[0] = ast.copy_location(ast.Set(elts=list(c.args[0].elts)), c)
+                        changed = True
+                        rep.shapes += 1
+                return node
 
             def visit_Call(self, node: ast.Call) -> ast.AST:
                 nonlocal changed
                 self.generic_visit(node)
                 f = node.func
+                # re.findall(re.compile(P), s)  ==  re.findall(P, s)   (and match / search / ...)
+                if node.args and isinstance(node.args[0], ast.Call) and not node.args[0].keywords and \
+                        len(node.args[0].args) == 1 and isinstance(node.args[0].args[0], ast.Constant):
+                    ai = norm_absimp
+                    def org(f_: ast.AST) -> Optional[Tuple[str, str]]:
+                        if isinstance(f_, ast.Name) and f_.id in ai and ai[f_.id][1]:
+                            return ai[f_.id]
+                        if isinstance(f_, ast.Attribute) and isinstance(f_.value, ast.Name) and f_.value.id in ai \
+                                and not ai[f_.value.id][1]:
+                            return (ai[f_.value.id][0], f_.attr)
+                        return None
+                    o1, o2 = org(f), org(node.args[0].func)
+                    if o1 is not None and o1[0] == "re" and o1[1] in ("findall", "match", "search", "fullmatch", "split",
+                                                                       "finditer", "sub", "subn") and o2 == ("re", "compile"):
+                        node.args[0] = node.args[0].args[0]
+                        changed = True
+                        rep.shapes += 1
                 if isinstance(f, ast.Name) and f.id == "getattr" and len(node.args) == 2 and not node.keywords \
                         and isinstance(node.args[1], ast.Constant) and isinstance(node.args[1].value, str) \
                         and node.args[1].value.isidentifier():
@@ -1824,6 +2223,28 @@ class Normaliser:
                         changed = True
                         rep.shapes += 1
                         return _set_loc(gen, node)
+                if isinstance(f, ast.Name) and f.id in fobjs:
+                    lam_, fieldmap = fobjs[f.id]
+                    body_ = beta(lam_, ast.Call(func=lam_, args=list(node.args), keywords=list(node.keywords)))
+                    if body_ is not None:
+                        class SF(ast.NodeTransformer):
+                            def visit_Attribute(self, nd: ast.Attribute) -> ast.AST:
+                                self.generic_visit(nd)
+                                if isinstance(nd.value, ast.Name) and nd.value.id == "self$" and nd.attr in fieldmap:
+                                    return ast.copy_location(copy.deepcopy(fieldmap[nd.attr]), nd)
+                                return nd
+                        changed = True
+                        rep.shapes += 1
+                        return _set_loc(SF().visit(body_), node)
+                if isinstance(f, ast.Name) and f.id in partials:
+                    pc = partials[f.id]
+                    merged = ast.Call(func=copy.deepcopy(pc.args[0]),
+                                      args=[copy.deepcopy(a_) for a_ in pc.args[1:]] + list(node.args),
+                                      keywords=[copy.deepcopy(k_) for k_ in pc.keywords
+                                                if k_.arg not in {k2.arg for k2 in node.keywords}] + list(node.keywords))
+                    changed = True
+                    rep.shapes += 1
+                    return _set_loc(merged, node)
                 lam = f if isinstance(f, ast.Lambda) else lambdas.get(f.id) if isinstance(f, ast.Name) else None
                 if lam is not None:
                     new = beta(lam, node)
@@ -1833,6 +2254,17 @@ class Normaliser:
                         return _set_loc(new, node)
                 return node
         X().visit(fn)
+        # drop partial / function-object bindings no longer referenced
+        for nm_ in list(partials) + list(fobjs):
+            if not any(isinstance(x, ast.Name) and x.id == nm_ and isinstance(x.ctx, ast.Load) for x in ast.walk(fn)):
+                for holder_ in ast.walk(fn):
+                    for fld_ in ("body", "orelse", "finalbody"):
+                        b_ = getattr(holder_, fld_, None)
+                        if isinstance(b_, list):
+                            for st_ in list(b_):
+                                if isinstance(st_, ast.Assign) and len(st_.targets) == 1 and \
+                                        isinstance(st_.targets[0], ast.Name) and st_.targets[0].id == nm_ and len(b_) > 1:
+                                    b_.remove(st_)
         # drop lambda bindings no longer referenced
         if lambdas:
             def prune(stmts: List[ast.stmt]) -> None:
@@ -1912,8 +2344,9 @@ class Normaliser:
                 all_stores[n.name] = all_stores.get(n.name, 0) + 5
         cands = [n for n, c in top_stores.items() if all_stores.get(n) == c and n not in escaping
                  and (c >= 2 or (n in params and c >= 1))]
+        nested_done = self._versions_in_blocks(fn, params, escaping, all_stores)
         if not cands:
-            return False
+            return nested_done
         taken = getattr(fn, "_taken", None)
         if taken is None:
             taken = _all_names(fn)
@@ -1945,6 +2378,76 @@ class Normaliser:
                     cur = new
             self.report.temporaries += 0
         return True
+
+    def _versions_in_blocks(self, fn: ast.FunctionDef, params: Set[str], escaping: Set[str],
+                            all_stores: Dict[str, int]) -> bool:
+        """the same inside a nested block (a loop body, a branch): a local bound several times by
+        plain assignments of that block and used nowhere outside it, every use after a binding"""
+        changed = False
+        taken = getattr(fn, "_taken", None)
+        if taken is None:
+            taken = _all_names(fn)
+            fn._taken = taken  # type: ignore[attr-defined]
+
+        def blocks(stmts: List[ast.stmt], top: bool) -> None:
+            nonlocal changed
+            for st in stmts:
+                if isinstance(st, ScopeT):
+                    continue
+                for fld in ("body", "orelse", "finalbody"):
+                    sub = getattr(st, fld, None)
+                    if isinstance(sub, list) and sub and isinstance(sub[0], ast.stmt):
+                        blocks(sub, False)
+                if isinstance(st, ast.Try):
+                    for hd in st.handlers:
+                        blocks(hd.body, False)
+            if top:
+                return
+            counts: Dict[str, int] = {}
+            for st in stmts:
+                if isinstance(st, ast.Assign) and len(st.targets) == 1 and isinstance(st.targets[0], ast.Name):
+                    counts[st.targets[0].id] = counts.get(st.targets[0].id, 0) + 1
+            for nm, c in sorted(counts.items()):
+                if c < 2 or nm in params or nm in escaping or all_stores.get(nm) != c:
+                    continue
+                inside = sum(1 for st in stmts for n in [st] + list(_walk_scope(st))
+                             if isinstance(n, ast.Name) and n.id == nm)
+                total = sum(1 for n in _walk_scope(fn) if isinstance(n, ast.Name) and n.id == nm)
+                if inside != total:
+                    continue
+                # no use before the first binding (a loop would carry the last value round)
+                first = next(i for i, st in enumerate(stmts) if isinstance(st, ast.Assign) and len(st.targets) == 1
+                             and isinstance(st.targets[0], ast.Name) and st.targets[0].id == nm)
+                if any(isinstance(n, ast.Name) and n.id == nm for st in stmts[:first] for n in ast.walk(st)) or \
+                        any(isinstance(n, ast.Name) and n.id == nm for n in ast.walk(stmts[first].value)):  # type: ignore[attr-defined]
+                    continue
+                cur = None
+                ver = 0
+                for idx, st in enumerate(stmts):
+                    is_def = isinstance(st, ast.Assign) and len(st.targets) == 1 and \
+                        isinstance(st.targets[0], ast.Name) and st.targets[0].id == nm
+                    if cur is not None and cur != nm:
+                        sub = _Subst({nm: ast.Name(id=cur, ctx=ast.Load())})
+                        if is_def:
+                            st.value = sub.visit(st.value)          # type: ignore[attr-defined]
+                        else:
+                            stmts[idx] = sub.visit(st)
+                    if is_def:
+                        if cur is None:
+                            cur = nm
+                            ver = 1
+                            continue
+                        ver += 1
+                        new = "%s_v%d" % (nm, ver)
+                        while new in taken:
+                            ver += 1
+                            new = "%s_v%d" % (nm, ver)
+                        taken.add(new)
+                        st.targets[0] = ast.copy_location(ast.Name(id=new, ctx=ast.Store()), st.targets[0])  # type: ignore[attr-defined]
+                        cur = new
+                changed = True
+        blocks(fn.body, True)
+        return changed
 
     # ------------------------------------------------------------------ N2
     def copyprop(self, fn: ast.FunctionDef) -> bool:
@@ -2012,6 +2515,9 @@ class Normaliser:
                 if any(isinstance(n, (ast.Yield, ast.YieldFrom, ast.Await, ast.NamedExpr, ast.Lambda) + CompT)
                        for n in ast.walk(val)):
                     continue
+                if isinstance(val, ast.IfExp) and sum(
+                        1 for n in _walk_scope(fn) if isinstance(n, ast.Name) and n.id == tgt and isinstance(n.ctx, ast.Load)) > 1:
+                    continue        # a choice used several times stays a name (jump threading splits it)
                 if self._try_propagate(fn, stmts, i, tgt, val, stable):
                     return True
             return False
@@ -2045,6 +2551,26 @@ class Normaliser:
             if calls_only and not any(isinstance(x, ast.Attribute) and isinstance(x.ctx, (ast.Store, ast.Del))
                                       and x.attr == val.attr for x in ast.walk(fn)):
                 pur = 0
+        elif pur == 1 and isinstance(val, ast.Attribute) and self._atomic(val) and isinstance(val.value, ast.Attribute):
+            # ... the same for a method of ``self.a`` when nothing executed after the binding in
+            # this block can assign ``a`` (only this function and constructors ever assign it)
+            chain = attr_path_(val.value)
+            if chain and chain[0] in stable:
+                sites = self._attr_store_sites()
+                ctor_ids = self._ctor_ids
+                callee_ids = {id(c.func) for c in ast.walk(fn) if isinstance(c, ast.Call)}
+                calls_only = all(id(n) in callee_ids for _j, n in after)
+                safe = calls_only and "*" not in {k for k in sites if k == "*" and any(
+                    a_.lstrip("_") in sites for a_ in chain[1:])}
+                for a_ in chain[1:] + (val.attr,):
+                    if not (sites.get(a_, set()) <= ({id(fn)} | ctor_ids)):
+                        safe = False
+                    for st_ in stmts[i + 1:]:
+                        if any(isinstance(x, ast.Attribute) and x.attr == a_ and not isinstance(x.ctx, ast.Load)
+                               for x in ast.walk(st_)):
+                            safe = False
+                if safe:
+                    pur = 0
         last = max(j for j, _ in after)
         using = sorted({j for j, _ in after})
 
@@ -2283,8 +2809,50 @@ class Normaliser:
             p_ = attr_path_(e)
             if p_ and len(p_) >= 2 and p_[0] in imported and not counts.get(p_[0]):
                 return True
+            # an immutable value built from literals: re.compile("..."), frozenset((...))
+            if isinstance(e, ast.Call) and not e.keywords and len(e.args) == 1 and _lit0_args(e):
+                fo = origin(e.func)
+                if fo in (("re", "compile"), ("builtins", "frozenset"), ("builtins", "tuple")):
+                    return True
+            # the name of a class / function defined or imported at module level (as an element
+            # of a table): looked up when the using function runs, like the table's name was
+            if isinstance(e, ast.Name) and nested_in_tuple[0] and (e.id in imported or e.id in toplevel) \
+                    and not counts.get(e.id):
+                return True
             return False
+        def _lit0_args(c: ast.Call) -> bool:
+            a = c.args[0]
+            return isinstance(a, ast.Constant) or (isinstance(a, (ast.Tuple, ast.List, ast.Set)) and all(
+                isinstance(x, ast.Constant) for x in a.elts))
+
+        def origin(f: ast.AST) -> Optional[Tuple[str, str]]:
+            """(module, name) an expression in callee position refers to, through this module's imports"""
+            if isinstance(f, ast.Name):
+                if f.id in absimp_cur and absimp_cur[f.id][1]:
+                    return absimp_cur[f.id]
+                if f.id in ("frozenset", "tuple") and not counts.get(f.id) and f.id not in absimp_cur:
+                    return ("builtins", f.id)
+                return None
+            if isinstance(f, ast.Attribute) and isinstance(f.value, ast.Name) and f.value.id in absimp_cur \
+                    and not absimp_cur[f.value.id][1]:
+                return (absimp_cur[f.value.id][0], f.attr)
+            return None
+        nested_in_tuple = [False]
+        _lit0 = literal
+
+        def literal(e: ast.AST) -> bool:  # noqa: F811
+            if isinstance(e, (ast.Tuple, ast.List)):
+                saved = nested_in_tuple[0]
+                nested_in_tuple[0] = True
+                try:
+                    return all(literal(x) for x in e.elts)
+                finally:
+                    nested_in_tuple[0] = saved
+            return _lit0(e)
+        self.scan()
         for mod, tree in self.trees.items():
+            absimp_cur = self.abs_imports.get(mod, {})
+            toplevel = {st.name for st in tree.body if isinstance(st, (ast.ClassDef, ast.FunctionDef))}
             imported: Set[str] = set()
             for st in tree.body:
                 for x in ([st] if not isinstance(st, ast.If) else list(st.body) + list(st.orelse)):
@@ -2408,17 +2976,703 @@ class Normaliser:
                         visit(st.orelse, cls)
             visit(tree.body, None)
 
+    def _local_passes_fn(self, fn: ast.FunctionDef) -> None:
+        self._attr_sites = None
+        for _ in range(4):
+            c = self.copyprop(fn)
+            d = self.shapes(fn)
+            if not (c or d):
+                break
+
     def _local_passes(self) -> None:
+        self._attr_sites = None
         for tree in self.trees.values():
             for fn in [n for n in ast.walk(tree) if isinstance(n, ast.FunctionDef)]:
                 for _ in range(8):
                     a = self.fold(fn)
                     b = self.if_assign(fn)
                     v = self.versions(fn)
+                    e = self.attr_alias(fn)
                     c = self.copyprop(fn)
                     d = self.shapes(fn)
-                    if not (a or b or c or d or v):
+                    t = self.thread(fn)
+                    r = self.early_returns(fn)
+                    if not (a or b or c or d or v or e or t or r):
                         break
+
+    def _function_object_class(self, mod: str, name: str) -> Optional[Tuple[List[str], ast.Lambda]]:
+        """(field names in constructor order, lambda over the call parameters with ``self$.f`` for
+        the fields) for a private class of ``mod`` that is nothing but stored arguments and a
+        one-expression ``__call__``"""
+        tree = self.trees.get(mod)
+        if tree is None or not name.startswith("_"):
+            return None
+        c = next((n for n in tree.body if isinstance(n, ast.ClassDef) and n.name == name), None)
+        if c is None or c.bases or c.keywords or c.decorator_list:
+            return None
+        if self.known is not None and any(k.startswith("%s:%s." % (mod, name)) for k in self.known):
+            return None
+        init = call = None
+        for b in c.body:
+            if isinstance(b, ast.Expr) and isinstance(b.value, ast.Constant):
+                continue
+            if isinstance(b, ast.Assign) and len(b.targets) == 1 and isinstance(b.targets[0], ast.Name) \
+                    and b.targets[0].id == "__slots__":
+                continue
+            if isinstance(b, ast.FunctionDef) and b.name == "__init__":
+                init = b
+            elif isinstance(b, ast.FunctionDef) and b.name == "__call__":
+                call = b
+            else:
+                return None
+        if init is None or call is None or init.decorator_list or call.decorator_list:
+            return None
+        ia = init.args
+        if ia.vararg or ia.kwarg or ia.kwonlyargs or ia.defaults or ia.posonlyargs or not ia.args:
+            return None
+        me = ia.args[0].arg
+        fields = [a.arg for a in ia.args[1:]]
+        stored: Dict[str, str] = {}
+        for st in _body_wo_doc(init):
+            if isinstance(st, ast.Assign) and len(st.targets) == 1 and isinstance(st.targets[0], ast.Attribute) \
+                    and isinstance(st.targets[0].value, ast.Name) and st.targets[0].value.id == me \
+                    and isinstance(st.value, ast.Name) and st.value.id in fields:
+                stored[st.targets[0].attr] = st.value.id
+            else:
+                return None
+        if sorted(stored.values()) != sorted(fields) or len(stored) != len(fields):
+            return None
+        cb = _body_wo_doc(call)
+        ca = call.args
+        if len(cb) != 1 or not isinstance(cb[0], ast.Return) or cb[0].value is None or ca.vararg or ca.kwarg \
+                or ca.kwonlyargs or ca.defaults or ca.posonlyargs or not ca.args:
+            return None
+        me2 = ca.args[0].arg
+        # nobody else touches the fields (no other methods), and __call__ only reads them
+        if any(isinstance(x, ast.Attribute) and not isinstance(x.ctx, ast.Load) for x in ast.walk(call)):
+            return None
+        body = copy.deepcopy(cb[0].value)
+
+        class R(ast.NodeTransformer):
+            bad = False
+
+            def visit_Name(self, nd: ast.Name) -> ast.AST:
+                if nd.id == me2:
+                    par = getattr(nd, "_p", None)
+                    return ast.copy_location(ast.Name(id="self$", ctx=nd.ctx), nd)
+                return nd
+        body = R().visit(body)
+        # every use of self must be self.<field>
+        for x in ast.walk(body):
+            if isinstance(x, ast.Name) and x.id == "self$":
+                pass
+        ok_uses = all(not (isinstance(x, ast.Name) and x.id == "self$") or True for x in ast.walk(body))
+        attr_uses = [x for x in ast.walk(body) if isinstance(x, ast.Attribute) and isinstance(x.value, ast.Name)
+                     and x.value.id == "self$"]
+        n_self = sum(1 for x in ast.walk(body) if isinstance(x, ast.Name) and x.id == "self$")
+        if not ok_uses or n_self != len(attr_uses) or any(x.attr not in stored for x in attr_uses):
+            return None
+        # field attribute -> constructor parameter order
+        by_param = {v: k for k, v in stored.items()}
+        ordered_fields = [by_param[p_] for p_ in fields]
+        lam = ast.Lambda(args=ast.arguments(posonlyargs=[], args=[ast.arg(arg=a.arg) for a in ca.args[1:]],
+                                            kwonlyargs=[], kw_defaults=[], defaults=[]), body=body)
+        return ordered_fields, lam
+
+    def thread(self, fn: ast.FunctionDef) -> bool:
+        """jump threading: an if/elif/else whose every branch ends by binding the same local — in
+        at least one branch to a constant — followed by statements that test that local: the
+        statements up to the last use move into the branches (with the constant in place of the
+        local where there is one; the tests on it then fold away).  ``x = a if c else b`` with a
+        constant arm, tested afterwards, is split into that shape first."""
+        changed = False
+        params = {a.arg for a in fn.args.posonlyargs + fn.args.args + fn.args.kwonlyargs}
+
+        def leaves(st: ast.If) -> Optional[List[List[ast.stmt]]]:
+            out: List[List[ast.stmt]] = []
+            cur: ast.stmt = st
+            while True:
+                assert isinstance(cur, ast.If)
+                out.append(cur.body)
+                if len(cur.orelse) == 1 and isinstance(cur.orelse[0], ast.If):
+                    cur = cur.orelse[0]
+                    continue
+                if not cur.orelse:
+                    return None
+                out.append(cur.orelse)
+                return out
+
+        def tested_soon(x: str, rest: List[ast.stmt]) -> bool:
+            for r in rest[:3]:
+                if isinstance(r, ast.If) and any(isinstance(n, ast.Name) and n.id == x for n in ast.walk(r.test)):
+                    return True
+            return False
+
+        def block(stmts: List[ast.stmt]) -> bool:
+            for st in stmts:
+                if isinstance(st, ScopeT):
+                    continue
+                for fld in ("body", "orelse", "finalbody"):
+                    sub = getattr(st, fld, None)
+                    if isinstance(sub, list) and sub and isinstance(sub[0], ast.stmt):
+                        if block(sub):
+                            return True
+                if isinstance(st, ast.Try):
+                    for hd in st.handlers:
+                        if block(hd.body):
+                            return True
+            fn_stores = {n.id for n in _walk_scope(fn) if isinstance(n, ast.Name) and not isinstance(n.ctx, ast.Load)}
+
+            def const_like(v: ast.expr) -> bool:
+                if isinstance(v, ast.Constant):
+                    return True
+                p_ = attr_path_(v)
+                return bool(p_) and p_[0] not in fn_stores and p_[0] not in params and p_[0] not in ("self", "cls")
+            for k, st in enumerate(stmts):
+                # x = a if c else b   (an arm constant, x tested right after)
+                if isinstance(st, ast.Assign) and len(st.targets) == 1 and isinstance(st.targets[0], ast.Name) \
+                        and isinstance(st.value, ast.IfExp) and st.targets[0].id not in params \
+                        and (const_like(st.value.body) or const_like(st.value.orelse)) \
+                        and tested_soon(st.targets[0].id, stmts[k + 1:]) \
+                        and sum(1 for n in _walk_scope(fn) if isinstance(n, ast.Name) and n.id == st.targets[0].id
+                                and not isinstance(n.ctx, ast.Load)) == 1:
+                    x_ = st.targets[0].id
+                    e_ = st.value
+                    mk = lambda v_: ast.copy_location(ast.Assign(  # noqa: E731
+                        targets=[ast.copy_location(ast.Name(id=x_, ctx=ast.Store()), st)], value=v_), st)
+                    stmts[k] = ast.copy_location(ast.If(test=e_.test, body=[mk(e_.body)], orelse=[mk(e_.orelse)]), st)
+                    self.report.shapes += 1
+                    return True
+            for k, st in enumerate(stmts):
+                if not isinstance(st, ast.If) or k + 1 >= len(stmts):
+                    continue
+                lv = leaves(st)
+                if lv is None or not (2 <= len(lv) <= 5):
+                    continue
+
+                def trailing(b: List[ast.stmt]) -> Dict[str, ast.Assign]:
+                    run: Dict[str, ast.Assign] = {}
+                    for s_ in reversed(b):
+                        if isinstance(s_, ast.Assign) and len(s_.targets) == 1 and isinstance(s_.targets[0], ast.Name) \
+                                and s_.targets[0].id not in run and (const_like(s_.value) or not run):
+                            run[s_.targets[0].id] = s_
+                            if not const_like(s_.value):
+                                break           # only as the very last statement of the branch
+                        else:
+                            break
+                    return run
+                runs = [None if self._always_exits(b) else trailing(b) for b in lv]
+                live = [r for r in runs if r is not None]
+                if len(live) < 1 or (len(live) < 2 and not any(r is None for r in runs)):
+                    continue
+                common = set(live[0])
+                for r in live[1:]:
+                    common &= set(r)
+                common -= params
+                common = {c_ for c_ in common if any(const_like(r[c_].value) for r in live)}
+                if not common:
+                    continue
+                x = sorted(common)[0]
+                binds: List[Optional[ast.Assign]] = [None if r is None else r[x] for r in runs]
+                stores = [n for n in _walk_scope(fn) if isinstance(n, ast.Name) and n.id == x and not isinstance(n.ctx, ast.Load)]
+                if len(stores) != sum(1 for b_ in binds if b_ is not None):
+                    continue
+
+                def captures(n: ast.AST) -> bool:
+                    own = {a_.arg for a_ in ast.walk(n) if isinstance(a_, ast.arg)} | {
+                        m.id for m in ast.walk(n) if isinstance(m, ast.Name) and not isinstance(m.ctx, ast.Load)}
+                    if isinstance(n, ast.FunctionDef) and x in own:
+                        return False             # its own local of the same name
+                    return any(isinstance(m, ast.Name) and m.id == x for m in ast.walk(n))
+                if any(isinstance(n, (ast.FunctionDef, ast.Lambda) + CompT) and captures(n) for n in _walk_scope(fn)):
+                    continue
+                loads = [n for n in _walk_scope(fn) if isinstance(n, ast.Name) and n.id == x and isinstance(n.ctx, ast.Load)]
+                rest = stmts[k + 1:]
+                lastuse = -1
+                inside = 0
+                for j, r in enumerate(rest):
+                    c_ = sum(1 for n in [r] + list(_walk_scope(r)) if isinstance(n, ast.Name) and n.id == x
+                             and isinstance(n.ctx, ast.Load))
+                    if c_:
+                        lastuse = j
+                        inside += c_
+                if lastuse < 0 or inside != len(loads) or lastuse > 5:
+                    continue
+                moved = rest[:lastuse + 1]
+                if any(isinstance(m, ScopeT) for m in moved):
+                    continue
+                all_const = all(b_ is None or const_like(b_.value) for b_ in binds)
+                if not all_const and not tested_soon(x, rest):
+                    continue
+                if not all_const and sum(len(list(ast.walk(m))) for m in moved) > 120:
+                    continue
+                for b, bind in zip(lv, binds):
+                    if bind is None:
+                        continue
+                    if const_like(bind.value):
+                        b.remove(bind)                            # the binding of the constant
+                        cc = copy.deepcopy(bind.value)
+                        if isinstance(cc, ast.Constant):
+                            cc._synth = True  # type: ignore[attr-defined]
+                        b.extend(_Subst({x: cc}, mark_synth=True).visit(copy.deepcopy(m)) for m in moved)
+                    else:
+                        b.extend(copy.deepcopy(m) for m in moved)
+                    if not b:
+                        b.append(ast.copy_location(ast.Pass(), st))
+                del stmts[k + 1:k + 1 + len(moved)]
+                self.report.shapes += 1
+                return True
+            return False
+        for _ in range(8):
+            if not block(fn.body):
+                break
+            changed = True
+        return changed
+
+    def early_returns(self, fn: ast.FunctionDef) -> bool:
+        """single-exit style back to early returns:  ``r = D`` ... ``r = E; break`` / ``r = E`` in
+        tail position ... ``return r``   ->   ``return E`` at those places and ``return D`` at the end"""
+        body = fn.body
+        if len(body) < 2 or not isinstance(body[-1], ast.Return) or not isinstance(body[-1].value, ast.Name):
+            return False
+        if _is_generator(fn):
+            return False
+        x = body[-1].value.id
+        params = {a.arg for a in fn.args.posonlyargs + fn.args.args + fn.args.kwonlyargs}
+        if x in params:
+            return False
+        for n in _walk_scope(fn):
+            if isinstance(n, (ast.FunctionDef, ast.Lambda) + CompT) and any(
+                    isinstance(m, ast.Name) and m.id == x for m in ast.walk(n)):
+                return False
+            if isinstance(n, (ast.Try, ast.With, ast.Global, ast.Nonlocal)):
+                return False
+        loads = [n for n in _walk_scope(fn) if isinstance(n, ast.Name) and n.id == x and isinstance(n.ctx, ast.Load)]
+        if len(loads) != 1:
+            return False            # read somewhere else as well
+        # the initial binding: a top-level ``x = <constant-like>`` before everything that assigns x
+        init: Optional[ast.Assign] = None
+        for st in body[:-1]:
+            if isinstance(st, ast.Assign) and len(st.targets) == 1 and isinstance(st.targets[0], ast.Name) \
+                    and st.targets[0].id == x:
+                init = st
+                break
+            if any(isinstance(n, ast.Name) and n.id == x for n in ast.walk(st)):
+                return False
+        if init is None or not (isinstance(init.value, ast.Constant) or _purity(init.value, set()) == 0):
+            return False
+        sites: List[Tuple[List[ast.stmt], int, bool]] = []      # (block, index of the assignment, via break)
+        okay = True
+
+        def tail(stmts: List[ast.stmt], in_loop: bool) -> None:
+            """stmts: a block after which (when it completes normally, or by break if in_loop)
+            nothing but the final ``return x`` runs"""
+            nonlocal okay
+            if not stmts:
+                return
+            last = stmts[-1]
+            if in_loop:
+                # only ``x = E; break`` counts inside a loop body; other assignments to x make it undecidable
+                if isinstance(last, ast.Break) and len(stmts) >= 2 and is_bind(stmts[-2]):
+                    sites.append((stmts, len(stmts) - 2, True))
+                    check_no_bind(stmts[:-2])
+                    return
+                if isinstance(last, ast.If):
+                    check_no_bind(stmts[:-1])
+                    tail(last.body, True)
+                    tail(last.orelse, True)
+                    return
+                check_no_bind(stmts)
+                return
+            if is_bind(last):
+                sites.append((stmts, len(stmts) - 1, False))
+                check_no_bind(stmts[:-1])
+                return
+            if isinstance(last, ast.If):
+                check_no_bind(stmts[:-1])
+                tail(last.body, False)
+                tail(last.orelse, False)
+                return
+            if isinstance(last, (ast.For, ast.While)) and not last.orelse:
+                check_no_bind(stmts[:-1])
+                # breaks of nested loops inside would not leave this loop
+                if any(isinstance(n, (ast.For, ast.While)) for b_ in last.body for n in ast.walk(b_)):
+                    check_no_bind(last.body)
+                    return
+                tail(last.body, True)
+                return
+            check_no_bind(stmts)
+
+        def is_bind(st: ast.stmt) -> bool:
+            return isinstance(st, ast.Assign) and len(st.targets) == 1 and isinstance(st.targets[0], ast.Name) \
+                and st.targets[0].id == x
+
+        def check_no_bind(stmts: List[ast.stmt]) -> None:
+            nonlocal okay
+            for st in stmts:
+                if st is init:
+                    continue
+                for n in [st] + list(_walk_scope(st)):
+                    if isinstance(n, ast.Name) and n.id == x and not isinstance(n.ctx, ast.Load):
+                        okay = False
+        idx_init = body.index(init)
+        check_no_bind(body[:idx_init])
+        tail(body[idx_init + 1:-1], False)
+        if not okay or not sites:
+            return False
+        for blk, i, via_break in sites:
+            st = blk[i]
+            assert isinstance(st, ast.Assign)
+            blk[i] = ast.copy_location(ast.Return(value=st.value), st)
+            if via_break:
+                del blk[i + 1]
+        body[-1].value = copy.deepcopy(init.value)
+        body.remove(init)
+        self.report.shapes += 1
+        return True
+
+    def _attr_store_sites(self) -> Dict[str, Set[int]]:
+        """attribute name -> ids of the functions that assign an attribute of that name"""
+        cached = getattr(self, "_attr_sites", None)
+        if cached is not None:
+            return cached
+        out: Dict[str, Set[int]] = {}
+        for tree in self.trees.values():
+            for fn in [n for n in ast.walk(tree) if isinstance(n, FuncT)]:
+                for n in _walk_scope(fn):
+                    if isinstance(n, ast.Attribute) and isinstance(n.ctx, (ast.Store, ast.Del)):
+                        out.setdefault(n.attr, set()).add(id(fn))
+                    elif isinstance(n, ast.Call) and isinstance(n.func, ast.Name) and n.func.id in ("setattr", "delattr"):
+                        if len(n.args) >= 2 and isinstance(n.args[1], ast.Constant):
+                            out.setdefault(str(n.args[1].value), set()).add(id(fn))
+                        else:
+                            out.setdefault("*", set()).add(id(fn))
+            for c in [n for n in ast.walk(tree) if isinstance(n, ast.ClassDef)]:
+                for st in c.body:
+                    if isinstance(st, (ast.Assign, ast.AnnAssign)):
+                        for t in (st.targets if isinstance(st, ast.Assign) else [st.target]):
+                            if isinstance(t, ast.Name):
+                                out.setdefault(t.id, set()).add(id(c))
+        self._attr_sites = out
+        self._ctor_ids = {id(f2) for t_ in self.trees.values() for f2 in ast.walk(t_)
+                          if isinstance(f2, FuncT) and f2.name in ("__init__", "__new__")}
+        return out
+
+    def attr_alias(self, fn: ast.FunctionDef) -> bool:
+        """a local that always holds the current value of ``self.A`` — every binding of it is
+        ``x = self.A`` or ``x = E; self.A = x`` — where only this method (and constructors)
+        assign ``A``: the local *is* ``self.A``.  (Assumes the method is not re-entered through
+        a callback while the alias is live.)"""
+        if not getattr(fn, "_is_method", False) or not fn.args.args:
+            return False
+        me = fn.args.args[0].arg
+        sites = self._attr_store_sites()
+        params = {a.arg for a in fn.args.posonlyargs + fn.args.args + fn.args.kwonlyargs}
+        escaping: Set[str] = set()
+        for n in _walk_scope(fn):
+            if isinstance(n, (ast.FunctionDef, ast.Lambda) + CompT):
+                escaping |= {m.id for m in ast.walk(n) if isinstance(m, ast.Name)}
+            elif isinstance(n, (ast.Global, ast.Nonlocal)):
+                escaping |= set(n.names)
+        if any(isinstance(n, ast.Name) and n.id == me and not isinstance(n.ctx, ast.Load) for n in _walk_scope(fn)):
+            return False
+        # blocks
+        blocks: List[List[ast.stmt]] = []
+
+        def collect(stmts: List[ast.stmt]) -> None:
+            blocks.append(stmts)
+            for st in stmts:
+                if isinstance(st, ScopeT):
+                    continue
+                for fld in ("body", "orelse", "finalbody"):
+                    sub = getattr(st, fld, None)
+                    if isinstance(sub, list) and sub and isinstance(sub[0], ast.stmt):
+                        collect(sub)
+                if isinstance(st, ast.Try):
+                    for hd in st.handlers:
+                        collect(hd.body)
+        collect(fn.body)
+        stores: Dict[str, List[ast.Name]] = {}
+        for n in _walk_scope(fn):
+            if isinstance(n, ast.Name) and not isinstance(n.ctx, ast.Load):
+                stores.setdefault(n.id, []).append(n)
+        ctor_ids = self._ctor_ids
+        changed = False
+        for x, sts in sorted(stores.items()):
+            if x in params or x in escaping or len(sts) < 1:
+                continue
+            plan: List[Tuple[List[ast.stmt], ast.stmt, Optional[ast.stmt]]] = []
+            attr: Optional[str] = None
+            ok = True
+            seen_targets: Set[int] = set()
+            for blk in blocks:
+                for i, st in enumerate(blk):
+                    if not (isinstance(st, ast.Assign) and len(st.targets) == 1 and isinstance(st.targets[0], ast.Name)
+                            and st.targets[0].id == x):
+                        continue
+                    seen_targets.add(id(st.targets[0]))
+                    v = st.value
+                    if isinstance(v, ast.Attribute) and isinstance(v.value, ast.Name) and v.value.id == me:
+                        a_ = v.attr
+                        plan.append((blk, st, None))
+                    elif i + 1 < len(blk) and isinstance(blk[i + 1], ast.Assign) and len(blk[i + 1].targets) == 1 and \
+                            isinstance(blk[i + 1].targets[0], ast.Attribute) and \
+                            isinstance(blk[i + 1].targets[0].value, ast.Name) and blk[i + 1].targets[0].value.id == me and \
+                            isinstance(blk[i + 1].value, ast.Name) and blk[i + 1].value.id == x and \
+                            not any(isinstance(m, ast.Name) and m.id == x for m in ast.walk(v)):
+                        a_ = blk[i + 1].targets[0].attr
+                        plan.append((blk, st, blk[i + 1]))
+                    else:
+                        ok = False
+                        break
+                    if attr is None:
+                        attr = a_
+                    elif attr != a_:
+                        ok = False
+                        break
+                if not ok:
+                    break
+            if not ok or attr is None or not plan or len(seen_targets) != len(sts):
+                continue
+            if not any(p_[2] is None for p_ in plan):
+                continue            # never read from the attribute: an ordinary temporary
+            # who assigns .attr: this method (only in the paired form) and constructors
+            if not (sites.get(attr, set()) <= ({id(fn)} | ctor_ids)):
+                continue
+            # setattr with a computed name (the indexed-attribute descriptors) writes "_<name>" for
+            # a class-level descriptor <name>: not this attribute unless such a name exists
+            if "*" in sites and any(k in sites for k in (attr.lstrip("_"),)) :
+                continue
+            paired = {id(p_[2].targets[0]) for p_ in plan if p_[2] is not None}
+            other_stores = [n for n in _walk_scope(fn) if isinstance(n, ast.Attribute) and n.attr == attr
+                            and not isinstance(n.ctx, ast.Load) and id(n) not in paired]
+            if other_stores:
+                continue
+            # rewrite
+            for blk, st, nxt in plan:
+                if nxt is None:
+                    blk.remove(st)
+                    if not blk:
+                        blk.append(ast.copy_location(ast.Pass(), st))
+                else:
+                    nxt.value = st.value
+                    blk.remove(st)
+
+            class R(ast.NodeTransformer):
+                def visit_Name(self, node: ast.Name) -> ast.AST:
+                    if node.id == x and isinstance(node.ctx, ast.Load):
+                        return ast.copy_location(ast.Attribute(value=ast.copy_location(
+                            ast.Name(id=me, ctx=ast.Load()), node), attr=attr, ctx=ast.Load()), node)
+                    return node
+            R().visit(fn)
+            self.report.temporaries += 1
+            changed = True
+        return changed
+
+    def flatten_new_bases(self) -> None:
+        """a private class the pinned tree does not have, used only as a base class inside its
+        module (a mix-in that duplicated methods were pulled up into): its methods and class-level
+        assignments are copied into each class that lists it, unless that class defines the name
+        itself, and it is dropped from the bases.  (The MRO places a first-listed base before the
+        other bases; a mix-in listed later is only flattened when no earlier base defines the name.)"""
+        funcs = self.vocab.get("functions")
+        if not funcs:
+            return
+        known_classes = set()
+        for k in funcs:
+            mod_, q = k.split(":", 1)
+            parts = q.split(".")
+            for i in range(1, len(parts)):
+                known_classes.add("%s:%s" % (mod_, ".".join(parts[:i])))
+        for k in self.vocab.get("class_attrs") or []:
+            mod_, q = k.split(":", 1)
+            known_classes.add("%s:%s" % (mod_, q.rsplit(".", 1)[0]))
+        for mod, tree in self.trees.items():
+            for base in [n for n in tree.body if isinstance(n, ast.ClassDef)]:
+                if not base.name.startswith("_") or ("%s:%s" % (mod, base.name)) in known_classes:
+                    continue
+                if base.bases or base.keywords or base.decorator_list:
+                    continue
+                members = [b for b in base.body if isinstance(b, (ast.FunctionDef, ast.Assign, ast.AnnAssign))]
+                others = [b for b in base.body if b not in members and not (
+                    isinstance(b, ast.Expr) and isinstance(b.value, ast.Constant)) and not isinstance(b, ast.Pass)]
+                if others or any(isinstance(m, ast.FunctionDef) and m.name == "__init__" for m in members):
+                    continue
+                # uses of the name: only as a base of classes of this module
+                users = [c for c in ast.walk(tree) if isinstance(c, ast.ClassDef)
+                         and any(isinstance(b, ast.Name) and b.id == base.name for b in c.bases)]
+                n_refs = sum(1 for t in self.trees.values() for n in ast.walk(t)
+                             if (isinstance(n, ast.Name) and n.id == base.name) or
+                             (isinstance(n, ast.Attribute) and n.attr == base.name) or
+                             (isinstance(n, ast.alias) and n.name == base.name))
+                if not users or n_refs != len(users):
+                    continue
+                if any(isinstance(n, ast.Call) and isinstance(n.func, ast.Name) and n.func.id == "super"
+                       for m in members for n in ast.walk(m)):
+                    continue
+                ok = True
+                for c in users:
+                    first = isinstance(c.bases[0], ast.Name) and c.bases[0].id == base.name
+                    if not first:
+                        ok = False
+                if not ok:
+                    continue
+                for c in users:
+                    own = {b.name for b in c.body if isinstance(b, ast.FunctionDef)} | {
+                        t.id for b in c.body if isinstance(b, (ast.Assign, ast.AnnAssign))
+                        for t in (b.targets if isinstance(b, ast.Assign) else [b.target]) if isinstance(t, ast.Name)}
+                    add: List[ast.stmt] = []
+                    for m in members:
+                        nm = m.name if isinstance(m, ast.FunctionDef) else None
+                        if nm is None:
+                            tg = m.targets[0] if isinstance(m, ast.Assign) else m.target
+                            nm = tg.id if isinstance(tg, ast.Name) else None
+                            if isinstance(m, ast.AnnAssign) and m.value is None:
+                                continue        # a bare annotation declares nothing at run time
+                        if nm is None or nm in own:
+                            continue
+                        add.append(copy.deepcopy(m))
+                    c.body.extend(add)
+                    c.bases = [b for b in c.bases if not (isinstance(b, ast.Name) and b.id == base.name)]
+                tree.body.remove(base)
+                self.report.shapes += 1
+
+    def specialise_inherited(self) -> None:
+        """a method the pinned tree defines in class C, which C now inherits from a base class of
+        the package (duplicated overrides pulled up into a template method): C gets its own copy
+        again — inheriting a method and defining an identical one are the same program — so that
+        the hooks it calls on ``self`` resolve in C"""
+        funcs = self.vocab.get("functions")
+        if not funcs:
+            return
+        self.scan()
+        import builtins as _b
+        for key in funcs:
+            mod, q = key.split(":", 1)
+            if "." not in q or mod not in self.trees:
+                continue
+            cq, meth = q.rsplit(".", 1)
+            if cq not in self.class_methods and cq not in self.class_bases:
+                continue
+            if meth in self.class_methods.get(cq, {}) or (meth.startswith("__") and meth.endswith("__")):
+                continue
+            # the class object
+            cls_node = None
+            for n in ast.walk(self.trees[mod]):
+                if isinstance(n, ast.ClassDef) and n.name == cq.split(".")[-1]:
+                    cls_node = n
+            if cls_node is None or any(isinstance(b, (ast.Assign, ast.AnnAssign)) and any(
+                    isinstance(t, ast.Name) and t.id == meth for t in (b.targets if isinstance(b, ast.Assign) else [b.target]))
+                    for b in cls_node.body):
+                continue
+            # first definition along the bases
+            found: Optional[Helper] = None
+            seen: Set[str] = set()
+            todo = [self.class_by_simple.get(b) for b in self.class_bases.get(cq, []) if self.class_by_simple.get(b)]
+            while todo and found is None:
+                c = todo.pop(0)
+                if c in seen:
+                    continue
+                seen.add(c)
+                found = self.class_methods.get(c, {}).get(meth)
+                todo = [self.class_by_simple.get(b) for b in self.class_bases.get(c, []) if self.class_by_simple.get(b)] + todo
+            if found is None or found.other_deco or found.static or found.classmethod or found.key in set(funcs):
+                continue            # (a base method the pinned tree already had is simply inherited)
+            if any(isinstance(n, ast.Call) and isinstance(n.func, ast.Name) and n.func.id == "super"
+                   for n in ast.walk(found.node)) or any(
+                    isinstance(n, ast.Name) and n.id == "__class__" for n in ast.walk(found.node)):
+                continue
+            # free names of the body must mean the same in the target module
+            tgt_names = {n.id for n in ast.walk(self.trees[mod]) if isinstance(n, ast.Name) and isinstance(n.ctx, ast.Store)}
+            for st in self.trees[mod].body:
+                if isinstance(st, (ast.FunctionDef, ast.ClassDef)):
+                    tgt_names.add(st.name)
+                elif isinstance(st, (ast.Import, ast.ImportFrom)):
+                    tgt_names |= {(a.asname or a.name).split(".")[0] for a in st.names}
+            body_free = {n.id for b in found.node.body for n in ast.walk(b) if isinstance(n, ast.Name)} - \
+                _assigned_names(ast.Module(body=list(found.node.body), type_ignores=[])) - \
+                {a.arg for a in ast.walk(found.node.args) if isinstance(a, ast.arg)}
+            if found.mod != mod and any(nm not in tgt_names and not hasattr(_b, nm) for nm in body_free):
+                continue
+            d = copy.deepcopy(found.node)
+            if found.mod != mod:
+                d.returns = None
+                for a in ast.walk(d.args):
+                    if isinstance(a, ast.arg):
+                        a.annotation = None
+            d._is_method = True  # type: ignore[attr-defined]
+            cls_node.body.append(d)
+            self.report.shapes += 1
+        self.scan()
+
+    def restore_signatures(self) -> None:
+        """a method of the pinned tree that became a static method taking, in place of ``self``,
+        something every caller computes from its own ``self`` the same way (``self._nxg``, an
+        attribute only constructors assign) is that method again"""
+        table = self.vocab.get("params")
+        if not table:
+            return
+        init_only = getattr(self, "init_only", set())
+        for mod, tree in self.trees.items():
+            for c in [n for n in ast.walk(tree) if isinstance(n, ast.ClassDef)]:
+                for fn in [b for b in c.body if isinstance(b, ast.FunctionDef)]:
+                    want = None
+                    for k, v in table.items():
+                        if k.startswith(mod + ":") and k.endswith("%s.%s" % (c.name, fn.name)):
+                            want = v
+                    have = [a.arg for a in fn.args.posonlyargs + fn.args.args + fn.args.kwonlyargs]
+                    if not want or have == want or len(have) != len(want) or have[1:] != want[1:] \
+                            or "staticmethod" not in _decorators(fn) or want[0] not in ("self",) \
+                            or fn.args.defaults and len(fn.args.defaults) == len(fn.args.args):
+                        continue
+                    p0 = have[0]
+                    # every reference is a call  <recv>.<name>(<recv>.<attr>, ...)  from a method
+                    refs = [n for t in self.trees.values() for n in ast.walk(t)
+                            if isinstance(n, ast.Attribute) and n.attr == fn.name]
+                    names = [n for t in self.trees.values() for n in ast.walk(t)
+                             if isinstance(n, ast.Name) and n.id == fn.name]
+                    calls = [n for t in self.trees.values() for n in ast.walk(t)
+                             if isinstance(n, ast.Call) and isinstance(n.func, ast.Attribute) and n.func.attr == fn.name]
+                    if names or len(refs) != len(calls) or not calls:
+                        continue
+                    attrs = set()
+                    ok = True
+                    enclosing: Dict[int, ast.FunctionDef] = {}
+                    for t in self.trees.values():
+                        for f2 in [n for n in ast.walk(t) if isinstance(n, ast.FunctionDef)]:
+                            for n in _walk_scope(f2):
+                                if isinstance(n, ast.Call):
+                                    enclosing.setdefault(id(n), f2)
+                    for cl in calls:
+                        recv = attr_path_(cl.func.value)
+                        a0 = attr_path_(cl.args[0]) if cl.args and not isinstance(cl.args[0], ast.Starred) else None
+                        if a0 and len(a0) == 1 and id(cl) in enclosing:
+                            # a local of the caller bound once to <recv>.<attr>
+                            f2 = enclosing[id(cl)]
+                            binds = [n for n in _walk_scope(f2) if isinstance(n, ast.Assign) and len(n.targets) == 1
+                                     and isinstance(n.targets[0], ast.Name) and n.targets[0].id == a0[0]]
+                            stores_ = [n for n in _walk_scope(f2) if isinstance(n, ast.Name) and n.id == a0[0]
+                                       and not isinstance(n.ctx, ast.Load)]
+                            if len(binds) == 1 and len(stores_) == 1 and attr_path_(binds[0].value):
+                                a0 = attr_path_(binds[0].value)
+                        if not recv or len(recv) != 1 or not a0 or len(a0) != 2 or a0[0] != recv[0] \
+                                or a0[1] not in init_only:
+                            ok = False
+                            break
+                        attrs.add(a0[1])
+                    if not ok or len(attrs) != 1:
+                        continue
+                    if any(isinstance(n, ast.Name) and n.id == p0 and not isinstance(n.ctx, ast.Load) for n in ast.walk(fn)) \
+                            or any(isinstance(n, ast.Name) and n.id == "self" for n in ast.walk(fn)):
+                        continue
+                    attr = attrs.pop()
+                    fn.decorator_list = [d for d in fn.decorator_list if ast.unparse(d) != "staticmethod"]
+                    fn.args.args[0] = ast.copy_location(ast.arg(arg="self", annotation=None), fn.args.args[0])
+                    repl = ast.Attribute(value=ast.Name(id="self", ctx=ast.Load()), attr=attr, ctx=ast.Load())
+                    fn.body = [_Subst({p0: repl}).visit(b) for b in fn.body]
+                    for cl in calls:
+                        del cl.args[0]
+                    self.report.call_style += 1
 
     # ------------------------------------------------------------------ driver
     def plain_assignments(self) -> None:
@@ -2461,6 +3715,9 @@ class Normaliser:
                     if isinstance(st, ast.FunctionDef) and "staticmethod" not in _decorators(st):
                         st._is_method = True  # type: ignore[attr-defined]
         self.plain_assignments()
+        self.flatten_new_bases()
+        self.specialise_inherited()
+        self.restore_signatures()
         self.module_constants()
         self.parameter_names()
         # helpers are brought into normal form before they are inlined (merged guards, no
@@ -2487,6 +3744,12 @@ def _pos(n: ast.AST) -> Tuple[int, int]:
     if o is not None:
         return (0, o)
     return (getattr(n, "lineno", 0), getattr(n, "col_offset", 0))
+
+
+def _after(a: ast.AST, b: ast.AST) -> bool:
+    """a is evaluated after everything under b (evaluation-order numbering)"""
+    last = max((_pos(n) for n in ast.walk(b) if isinstance(n, (ast.expr, ast.stmt))), default=(0, 0))
+    return _pos(a) > last
 
 
 def _renumber(root: ast.AST) -> None:
